@@ -344,6 +344,10 @@ func (p *Parser) parseBuffer(buf []byte, last bool) (err error) {
 					}
 				case 't':
 					p.addToken(off)
+					if p.mode == colonMap {
+						// The token was a key, a colon has to follow.
+						return p.byteError(off, colonMap, b, rune(b))
+					}
 				}
 				if depth == 0 && (pending == 'n' || pending == 't') {
 					// The number or token is a complete document. Hand it
@@ -488,6 +492,10 @@ func (p *Parser) parseBuffer(buf []byte, last bool) (err error) {
 					}
 				case 't':
 					p.addToken(off)
+					if p.mode == colonMap {
+						// The token was a key, a colon has to follow.
+						return p.byteError(off, colonMap, b, rune(b))
+					}
 				}
 				if depth == 0 && (pending == 'n' || pending == 't') {
 					// The number or token is a complete document. Hand it
